@@ -63,8 +63,13 @@ def l1(led, rid, ctx):
     led.ok(rid, "scan", None, "%d functions under propagators/ and constraints/ scanned" % n)
     # the context's own mutators store the given reason and pass its reference on
     m = 0
+    from ..inline import view
     for name in ("set_lower_bound", "set_upper_bound", "remove", "post_predicate"):
-        f = lib.method("PropagationContextMut", name)
+        f0 = lib.method("PropagationContextMut", name)
+        # private helpers of the context (e.g. a shared "store the reason" step) are spliced in; the
+        # three sibling mutators stay calls, post_predicate is judged by its dispatch to them
+        f = view(lib, f0, want=lambda g: g.file == f0.file and g.kind != "Closure" and g.vis != "pub"
+                 and g.name not in ("set_lower_bound", "set_upper_bound", "remove", "post_predicate"))
         R = resolver(f)
         sinks = [c for c in f.calls if (c.name in VAR_MUTATORS and (c.trait or "").endswith("IntegerVariable"))
                  or (c.name in ASSIGN_MUTATORS and (c.self_ty or "").endswith("Assignments"))]
@@ -85,7 +90,10 @@ def l1(led, rid, ctx):
             if ok:
                 pushes = [x for x in e.c[0].calls() if x.name == "push"]
                 pe = R.operand(pushes[0].args[-1])
-                ok = any(x.name == "build_reason" for x in pe.calls())
+                # the stored reason is computed from the `reason` parameter of the mutator
+                rparams = [i + 1 for i, a in enumerate(f.args) if i > 0 and ("Reason" in a["ty"] or a["ty"].startswith("impl Into") or a["ty"] in ("R",))]
+                rparams = rparams or [len(f.args)]
+                ok = any(x.k == "arg" and x.a in rparams for x in pe.walk())
             led.check(ok, rid, "ctx.%s:stores-given-reason" % name, c.span,
                       "Some(reason_store.push(.., build_reason(reason)))",
                       "PropagationContextMut::%s writes the domain with a reason reference that is not "
